@@ -292,7 +292,7 @@ func runScenarioIn(t *testing.T, sc *Scenario, h *History) {
 				if sc.Srv.TLS == tlsImplicit {
 					c = tls.Server(srvEnd, srvTLS)
 				}
-				return ln.Offer(c, nil, func() { ch.Accepted = true })
+				return ln.Offer(c, nil, func() { ch.Accepted = true; ch.AcceptedAt = time.Now().UnixNano() })
 			}
 			if cs.Stub != nil {
 				sh := &StubHistory{}
